@@ -333,7 +333,7 @@ func (r *runner) restart(cursor int) string {
 func (r *runner) scenario(log []entry, steps []step) []string {
 	var out []string
 	cursor, acked := 0, 0
-	needRestart := false
+	needRestart, broken := false, false
 	doRestart := func(back int) {
 		if back < 0 {
 			back = 0
@@ -361,6 +361,11 @@ func (r *runner) scenario(log []entry, steps []step) []string {
 		out = append(out, s)
 		if failed {
 			needRestart = true
+			if mode == 0 {
+				// ApplyBatch failed although the store was told to succeed (e.g. it was handed a
+				// state that does not encode): the observation is kept, the scenario ends here
+				broken = true
+			}
 		} else {
 			cursor = to
 			if cursor > acked {
@@ -369,6 +374,9 @@ func (r *runner) scenario(log []entry, steps []step) []string {
 		}
 	}
 	for _, s := range steps {
+		if broken {
+			return out
+		}
 		if s.N <= 0 {
 			doRestart(s.Back)
 			continue
@@ -379,7 +387,7 @@ func (r *runner) scenario(log []entry, steps []step) []string {
 		}
 		doBatch(s.N, m)
 	}
-	for cursor < len(log) || needRestart {
+	for (cursor < len(log) || needRestart) && !broken {
 		if needRestart {
 			doRestart(0)
 			continue
